@@ -167,3 +167,32 @@ fn p_fault_small() {
     }
     kani::cover!(shp.fired);
 }
+
+#[kani::proof]
+#[kani::unwind(34)]
+fn p_fold() {
+    use std::io::Write;
+    let cut_op: u32 = kani::any();
+    let cut_bytes: usize = kani::any();
+    kani::assume(cut_op <= 10 && cut_bytes <= 20);
+    let mut f = CrashFile::<64>::new(cut_op, cut_bytes);
+    let mut i = 0;
+    while i < 8 {
+        let v: u32 = kani::any();
+        let _ = f.write_all(&v.to_be_bytes());
+        i += 1;
+    }
+    let mut img = f.persisted;
+    put_i32_be(&mut img, 24, 5);
+    let mut src = MemSource::with_len(&img, f.plen);
+    let h = shapefile::header::Header::read_from(&mut src);
+    std::mem::forget(h);
+    let n = get_i32_be(&img, 24);
+    let mut k = 0;
+    let mut acc = 0;
+    while k < n {
+        acc += 1;
+        k += 1;
+    }
+    assert!(acc == 5);
+}
